@@ -269,7 +269,7 @@ def _run(prop, tier, ti, seed, a, scratch, t_start) -> int:
         'functions_encoded': [{'name': k, 'source_sha1': source_hash(k)} for k in kernels],
         'bounds': sorted({c.bounds for c in conds if c.bounds}),
         'twins_ok': twins_ok, 'twins_failed': twins_bad,
-        'canaries_killed': canaries_killed, 'canaries_survived': canaries_survived,
+        'canaries_killed': canaries_killed, 'canaries_survived': canaries_survived, 'canaries_note': 'a canary is missed only if no grid point of its harness refutes it (some grid points cannot distinguish it by construction)',
         'per_condition': records,
         'obligations': len(conds) + (e2_res['obligations'] if e2_res else 0),
         'discharged': len({j.cond.name for j in confirmed}) + (e2_res['discharged'] if e2_res else 0),
@@ -305,8 +305,14 @@ def _run(prop, tier, ti, seed, a, scratch, t_start) -> int:
         print(f'  model artefact (discarded): {j.cond.name} {args!r}'[:200])
     if twins_bad:
         print(f'  WARNING reachability twins not violated: {twins_bad}')
-    if canaries_survived:
-        print(f'  WARNING canaries survived (sensitivity: failed): {canaries_survived}')
+    # a seeded fault counts as missed only if no condition of its harness (any grid point) refutes it
+    def _base(x):
+        cond, can = x.rsplit('/', 1)
+        return cond.split('@')[0] + '/' + can
+    killed_bases = {_base(x) for x in canaries_killed}
+    missed = sorted({_base(x) for x in canaries_survived} - killed_bases)
+    if missed:
+        print(f'  WARNING canaries survived (sensitivity: failed): {missed}')
     for j, args, rp, d in violations:
         nm = j.cond.name if j else 'e2'
         print(f'  counterexample {nm}: {args!r} -> {d}'[:400])
